@@ -14,3 +14,5 @@ import FP.Props.C15
 #print axioms FP.Props.C15.boolean_text_roundtrip
 #print axioms FP.Props.C15.integer_text_roundtrip
 #print axioms FP.Props.C15.temporal_text_roundtrip
+#print axioms FP.Props.C15.decimal_text_roundtrip
+#print axioms FP.Props.C15.quantity_text_roundtrip_partial
